@@ -5,7 +5,7 @@ import ast
 from functools import cached_property
 
 from ..cfg import iter_own
-from ..loader import AnalysisError, ClassInfo, FuncInfo, dotted, walk_own
+from ..loader import exc_expr, AnalysisError, ClassInfo, FuncInfo, dotted, walk_own
 from .common import Anchors, call_name, def_use_closure, find_assign_sources, names_in, self_attr
 
 
@@ -101,7 +101,7 @@ class SignalAnchors:
             if m.name in ("dispatch",) or m is self.subscribe:
                 continue
             for n in walk_own(m.node):
-                if isinstance(n, ast.Raise) and n.exc is not None and "UnboundSignal" in ast.unparse(n.exc):
+                if isinstance(n, ast.Raise) and n.exc is not None and "UnboundSignal" in ast.unparse(exc_expr(n)):
                     return m
         raise AnalysisError("anchor-missing bound-ness check (a Signal method raising UnboundSignal)")
 
@@ -374,7 +374,7 @@ def run(ctx) -> None:
         fail_side = [dd for dd, lab in t.succ if lab == ("t" if negated else "f")]
         region = dcfg.reach(fail_side, avoid=[t.id], edge_ok=lambda s_, d_, lab: lab not in ("e", "h"))
         fail_raises = [dcfg.nodes[i] for i in region if dcfg.nodes[i].kind == "stmt" and isinstance(dcfg.nodes[i].ast, ast.Raise)]
-        raises_te = bool(fail_raises) and all(r.ast.exc is not None and "TypeError" in ast.unparse(r.ast.exc) for r in fail_raises) and dcfg.exit not in region and not any(call_name(cl) == "send_nowait" for i in region for cl, _ in a.node_calls(d, dcfg, dcfg.nodes[i]))
+        raises_te = bool(fail_raises) and all(r.ast.exc is not None and "TypeError" in ast.unparse(exc_expr(r.ast)) for r in fail_raises) and dcfg.exit not in region and not any(call_name(cl) == "send_nowait" for i in region for cl, _ in a.node_calls(d, dcfg, dcfg.nodes[i]))
         rep.check("C11.R5", raises_te, d, t.ast, "a wrong event class raises TypeError", "the failing event-class test does not raise TypeError")
         stamp_and_send = [n for n, m in a.func_mutations(d)] + [n for n in dcfg.live_nodes() if any(call_name(cl) == "send_nowait" for cl, _ in a.node_calls(d, dcfg, n))]
         rep.check("C11.R5", bool(stamp_and_send) and all(dcfg.dominates(t.id, s.id) for s in stamp_and_send), d, t.ast, "the class check dominates stamping and delivery", "stamping or delivery is reachable without the event class check")
@@ -385,7 +385,7 @@ def run(ctx) -> None:
     for n in walk_own(f.node):
         if isinstance(n, ast.Name) and n.id == inst and isinstance(n.ctx, ast.Load):
             uses += 1
-            ctxt = _use_context(f, n, weak)
+            ctxt = _use_context(f, n, weak, a)
             if ctxt[0]:
                 rep.hold("C11.R6", f, None, f"instance used as {ctxt[1]}", nontrivial=False)
             else:
@@ -410,7 +410,70 @@ def run(ctx) -> None:
     rep.assume("garbage-collector timing is not modelled; weakref.ref / WeakKeyDictionary hold their referent/key weakly")
 
 
-def _use_context(f: FuncInfo, name_node: ast.Name, weak: set) -> tuple:
+_READ_ONLY_BUILTINS = ("isinstance", "id", "type", "hasattr", "isclass", "callable", "repr", "str", "hash", "bool", "len", "issubclass", "iscoroutine", "isawaitable")
+
+
+def _param_escapes(a, g: FuncInfo, pname: str, depth: int) -> bool:
+    """Can the object passed as `pname` outlive the call through g (stored, returned, captured,
+    handed to something unknown)?  Reading attributes, comparing, formatting and the
+    read-only builtins do not retain it."""
+    parents: dict = {}
+    for n in walk_own(g.node):
+        for c in ast.iter_child_nodes(n):
+            parents[id(c)] = n
+    # local aliases (`cls = obj`) are tracked along
+    tracked = {pname}
+    alias_stores: set = set()
+    grew = True
+    while grew:
+        grew = False
+        for n in walk_own(g.node):
+            if isinstance(n, ast.Assign) and len(n.targets) == 1 and isinstance(n.targets[0], ast.Name) and isinstance(n.value, ast.Name) and n.value.id in tracked:
+                alias_stores.add(id(n.targets[0]))
+                alias_stores.add(id(n.value))
+                if n.targets[0].id not in tracked:
+                    tracked.add(n.targets[0].id)
+                    grew = True
+    for n in walk_own(g.node):
+        if isinstance(n, (ast.Lambda,)):
+            if any(isinstance(x, ast.Name) and x.id in tracked for x in ast.walk(n)):
+                return True
+            continue
+        if isinstance(n, ast.Name) and n.id in tracked:
+            if id(n) in alias_stores:
+                continue
+            if not isinstance(n.ctx, ast.Load):
+                if n.id == pname:
+                    return True
+                continue  # the alias is rebound to something else (e.g. `cls = type(obj)`)
+            par = parents.get(id(n))
+            if isinstance(par, (ast.Compare, ast.FormattedValue)):
+                continue
+            if isinstance(par, ast.Attribute):
+                continue
+            if isinstance(par, (ast.If, ast.While, ast.UnaryOp, ast.BoolOp, ast.Assert, ast.Expr)):
+                if isinstance(par, ast.BoolOp):
+                    return True  # `x or y` yields the object itself
+                continue
+            if isinstance(par, ast.Call) and n in par.args:
+                cn = call_name(par)
+                if cn in _READ_ONLY_BUILTINS and isinstance(par.func, ast.Name):
+                    continue
+                c = a.callee(g, par)
+                if depth > 0 and c.kind == "func" and c.func is not g and not c.func.is_generator and not c.func.is_async:
+                    idx = par.args.index(n) + (1 if c.func.cls is not None and "staticmethod" not in c.func.decorators else 0)
+                    if idx < len(c.func.params) and not _param_escapes(a, c.func, c.func.params[idx], depth - 1):
+                        continue
+                return True
+            return True
+    # nested functions capturing it
+    for sub in a.p.all_functions():
+        if sub.parent is g and any(isinstance(x, ast.Name) and x.id in tracked for x in ast.walk(sub.node)):
+            return True
+    return False
+
+
+def _use_context(f: FuncInfo, name_node: ast.Name, weak: set, analysis=None) -> tuple:
     """(ok, description, report_node)"""
     parent = None
     grand = None
@@ -435,8 +498,14 @@ def _use_context(f: FuncInfo, name_node: ast.Name, weak: set) -> tuple:
             if base in weak:
                 return (True, f"key of weak table {base}", parent)
             return (False, f"key of {base} which is not a weak-keyed mapping", parent)
-        if cn in ("isinstance", "id", "type", "hasattr"):
+        if cn in _READ_ONLY_BUILTINS:
             return (True, f"{cn}() argument", parent)
+        if analysis is not None and name_node in parent.args:
+            c = analysis.callee(f, parent)
+            if c.kind == "func" and not c.func.is_generator and not c.func.is_async:
+                idx = parent.args.index(name_node) + (1 if c.func.cls is not None and "staticmethod" not in c.func.decorators else 0)
+                if idx < len(c.func.params) and not _param_escapes(analysis, c.func, c.func.params[idx], 2):
+                    return (True, f"argument of {c.func.qualname}(), which only inspects it", parent)
         return (False, f"argument of {ast.unparse(parent.func)}()", parent)
     if isinstance(parent, ast.Subscript) and parent.slice is name_node:
         base = dotted(parent.value) or ""
